@@ -360,6 +360,20 @@ theorem jumpSum_eq (px : K) (l : List (K × K)) :
   | nil => simp [jumpSum]
   | cons a r ih => obtain ⟨m, v⟩ := a; simp only [jumpSum, ih, sc_hadd, sc_hmul, List.map_cons, List.sum_cons]; ring
 
+theorem whJumpSumDH_eq (px : K) (l : List (K × K × K)) :
+    whJumpSumDH px l = px + (l.map (fun a => a.1 * a.2.1)).sum := by
+  induction l generalizing px with
+  | nil => simp [whJumpSumDH]
+  | cons a r ih => obtain ⟨m, v, x⟩ := a; simp only [whJumpSumDH, ih, sc_hadd, sc_hmul, List.map_cons, List.sum_cons]; ring
+
+theorem whJumpSumWHDS_eq (m0 px : K) (l : List (K × K × K)) :
+    whJumpSumWHDS m0 px l = px + (l.map (fun a => a.1 * a.2.1 / (m0 + a.1))).sum := by
+  induction l generalizing px with
+  | nil => simp [whJumpSumWHDS]
+  | cons a r ih =>
+    obtain ⟨m, v, x⟩ := a
+    simp only [whJumpSumWHDS, ih, sc_hadd, sc_hmul, sc_hdiv, List.map_cons, List.sum_cons]; ring
+
 end mass
 
 end RV.Kepler
